@@ -313,10 +313,16 @@ def match_known(known, prop, sig):
 
 
 def write_evidence(prop, tier, seed, level, coverage, wall, violations, assumptions):
-    os.makedirs(V + '/evidence', exist_ok=True)
+    # evidence/ describes runs against /repo itself; a run against another source tree (VERIF_SRC: bin/seedtest.sh on a
+    # scratch worktree with a seeded change) leaves its record next to its build output instead
+    edir = V + '/evidence'
+    src = os.environ.get('VERIF_SRC')
+    if src and os.path.realpath(src) != '/repo':
+        edir = os.environ.get('VERIF_BUILD', '/tmp') + '/evidence'
+    os.makedirs(edir, exist_ok=True)
     ev = {'property_id': prop, 'tier': tier, 'seed': seed, 'level': level, 'coverage': coverage,
           'assumptions': assumptions, 'wall_s': round(wall, 1), 'violations': violations}
-    tmp = '%s/evidence/%s.json.tmp' % (V, prop)
+    tmp = '%s/%s.json.tmp' % (edir, prop)
     with open(tmp, 'w') as f:
         json.dump(ev, f, indent=1)
-    os.replace(tmp, '%s/evidence/%s.json' % (V, prop))
+    os.replace(tmp, '%s/%s.json' % (edir, prop))
